@@ -258,15 +258,49 @@ func (m *msgStore) cuts() ([]store.BackupChannelCut, error) {
 	return cuts, nil
 }
 
-func (m *msgStore) export() ([]byte, store.BackupSnapshotStats, error) {
-	cuts, err := m.cuts()
-	if err != nil {
-		return nil, store.BackupSnapshotStats{}, err
+// cutOrders returns every order in which the cuts can be handed to the exporter (the cluster
+// layer passes them in fence order, not in storage-key order).
+func cutOrders(cuts []store.BackupChannelCut) [][]store.BackupChannelCut {
+	var out [][]store.BackupChannelCut
+	var rec func(cur, rest []store.BackupChannelCut)
+	rec = func(cur, rest []store.BackupChannelCut) {
+		if len(rest) == 0 {
+			out = append(out, append([]store.BackupChannelCut{}, cur...))
+			return
+		}
+		for i := range rest {
+			next := append(append([]store.BackupChannelCut{}, rest[:i]...), rest[i+1:]...)
+			rec(append(cur, rest[i]), next)
+		}
 	}
-	if len(cuts) == 0 {
-		return nil, store.BackupSnapshotStats{}, errors.New("no channel in the catalog")
+	rec(nil, cuts)
+	return out
+}
+
+func cutNames(cuts []store.BackupChannelCut) string {
+	var ns []string
+	for _, c := range cuts {
+		if d, ok := chanByID(c.ID.ID); ok {
+			ns = append(ns, d.name)
+		} else {
+			ns = append(ns, "?"+c.ID.ID)
+		}
 	}
-	rd, stats, err := m.f.OpenBackupSnapshotWithStats(bg, store.BackupSnapshotRequest{HashSlot: msgHashSlot, Channels: cuts})
+	return strings.Join(ns, ",")
+}
+
+// exportOne takes one export of the given cuts (in the order given) through one of the two
+// exported entry points and reads the stream to its end.
+func (m *msgStore) exportOne(withStats bool, cuts []store.BackupChannelCut) ([]byte, store.BackupSnapshotStats, error) {
+	req := store.BackupSnapshotRequest{HashSlot: msgHashSlot, Channels: append([]store.BackupChannelCut{}, cuts...)}
+	var rd io.ReadCloser
+	var stats store.BackupSnapshotStats
+	var err error
+	if withStats {
+		rd, stats, err = m.f.OpenBackupSnapshotWithStats(bg, req)
+	} else {
+		rd, err = m.f.OpenBackupSnapshot(bg, req)
+	}
 	if err != nil {
 		return nil, stats, err
 	}
@@ -274,26 +308,82 @@ func (m *msgStore) export() ([]byte, store.BackupSnapshotStats, error) {
 	if cerr := rd.Close(); err == nil {
 		err = cerr
 	}
-	if err != nil {
-		return nil, stats, err
-	}
-	// the plain variant must produce the same bytes from the same cut
-	rd2, err := m.f.OpenBackupSnapshot(bg, store.BackupSnapshotRequest{HashSlot: msgHashSlot, Channels: cuts})
-	if err != nil {
-		return nil, stats, err
-	}
-	data2, err := io.ReadAll(rd2)
-	_ = rd2.Close()
-	if err != nil {
-		return nil, stats, err
-	}
-	if !bytes.Equal(data, data2) {
-		return data, stats, errDiffer
-	}
-	return data, stats, nil
+	return data, stats, err
 }
 
-var errDiffer = errors.New("OpenBackupSnapshot and OpenBackupSnapshotWithStats produced different streams")
+// exportDiffer: two exports of the same cut disagree (bytes or statistics).
+type exportDiffer struct{ what string }
+
+func (e *exportDiffer) Error() string { return "exports of one cut differ: " + e.what }
+
+// export takes the export of the store at the cut pkg/cluster would choose through BOTH
+// exported entry points (OpenBackupSnapshot, OpenBackupSnapshotWithStats - the one the cluster
+// backup path uses) with the channel cuts handed over in EVERY order.  The content of a
+// backup is a function of the cut, not of the entry point or of the order of the request:
+// all streams must be byte-identical and all returned statistics equal.  `prefer` selects
+// which of them is handed on (to be verified, imported, compared); the choice rotates over a
+// run so that every entry point / order also goes through the restore steps.
+func (m *msgStore) export(prefer int) ([]byte, store.BackupSnapshotStats, []store.BackupChannelCut, error) {
+	none := store.BackupSnapshotStats{}
+	cuts, err := m.cuts()
+	if err != nil {
+		return nil, none, nil, err
+	}
+	if len(cuts) == 0 {
+		return nil, none, nil, errNoChannel
+	}
+	orders := cutOrders(cuts)
+	type one struct {
+		name  string
+		data  []byte
+		stats store.BackupSnapshotStats
+		with  bool
+	}
+	var all []one
+	for _, o := range orders {
+		for _, with := range []bool{true, false} {
+			name := "OpenBackupSnapshot"
+			if with {
+				name = "OpenBackupSnapshotWithStats"
+			}
+			name += "(cuts " + cutNames(o) + ")"
+			data, stats, err := m.exportOne(with, o)
+			if err != nil {
+				if len(all) == 0 {
+					return nil, none, cuts, err // the first one decides whether the cut is refused
+				}
+				return nil, none, cuts, &exportDiffer{fmt.Sprintf("%s succeeded, %s failed: %v", all[0].name, name, err)}
+			}
+			all = append(all, one{name: name, data: data, stats: stats, with: with})
+		}
+	}
+	pick := all[((prefer%len(all))+len(all))%len(all)]
+	var refStats *one
+	for i := range all {
+		x := &all[i]
+		if !bytes.Equal(x.data, pick.data) {
+			return pick.data, pick.stats, cuts, &exportDiffer{fmt.Sprintf("%s and %s produced different streams (%d and %d bytes; restorable: %v and %v)",
+				pick.name, x.name, len(pick.data), len(x.data), restorable(pick.data), restorable(x.data))}
+		}
+		if x.with {
+			if refStats == nil {
+				refStats = x
+			} else if x.stats != refStats.stats {
+				return pick.data, pick.stats, cuts, &exportDiffer{fmt.Sprintf("%s returned %+v, %s returned %+v", refStats.name, refStats.stats, x.name, x.stats)}
+			}
+		}
+	}
+	return pick.data, refStats.stats, cuts, nil
+}
+
+// restorable: the stream passes the verification the cluster layer runs before a restore.
+func restorable(data []byte) bool {
+	_, err := messagedb.ReplayBackupSnapshotReader(bg, bytes.NewReader(data), int64(len(data)),
+		func(messagedb.BackupSnapshotBoundary) error { return nil }, func(messagedb.BackupSnapshotRecord) error { return nil })
+	return err == nil
+}
+
+var errNoChannel = errors.New("no channel in the catalog")
 
 // ---- the source ----------------------------------------------------------------------------
 
@@ -716,10 +806,11 @@ func (m *msgWorld) srcCall(ev map[string]any) (map[string]any, error) {
 }
 
 func (m *msgWorld) export() (map[string]any, error) {
-	data, stats, err := m.src.export()
+	data, stats, cuts, err := m.src.export(m.w.nextExport())
 	if err != nil {
-		if errors.Is(err, errDiffer) {
-			return map[string]any{"err": "streams differ", "stats": noStats}, nil
+		var d *exportDiffer
+		if errors.As(err, &d) {
+			return map[string]any{"err": d.Error(), "stats": noStats}, nil
 		}
 		if cls := errClass(err); cls == "rejected" {
 			return map[string]any{"err": "rejected", "stats": noStats}, nil
@@ -732,10 +823,11 @@ func (m *msgWorld) export() (map[string]any, error) {
 	}
 	m.exported, m.expStats, m.layout = data, stats, l
 	m.expHW, m.expPhys, m.expRmax = map[string]uint64{}, map[string]uint64{}, map[string]uint64{}
-	cuts, err := m.src.cuts()
-	if err != nil {
-		return nil, err
-	}
+	// the statistics returned with the stream (signed evidence of the backup) against what the
+	// source holds at the cut: hash slot, number of rows and greatest message id (the number of
+	// channels and the number of rows in model units are part of the reply the model predicts)
+	var rows, maxID uint64
+	var counts []uint64
 	for _, c := range cuts {
 		d, _ := chanByID(c.ID.ID)
 		m.expHW[d.name] = c.HW
@@ -744,6 +836,27 @@ func (m *msgWorld) export() (map[string]any, error) {
 			return nil, err
 		}
 		m.expPhys[d.name], m.expRmax[d.name] = rs.PhysicalRetentionThroughSeq, rs.RetainedMaxSeq
+		n := uint64(0)
+		if c.HW > rs.PhysicalRetentionThroughSeq {
+			n = c.HW - rs.PhysicalRetentionThroughSeq
+			maxID = max(maxID, rowID(d, c.HW))
+		}
+		rows += n
+		counts = append(counts, n)
+	}
+	m.w.count("exports", 1)
+	if len(counts) >= 2 {
+		m.w.count("exports_of_several_channels", 1)
+		for _, n := range counts[1:] {
+			if n != counts[0] {
+				m.w.count("exports_of_several_channels_with_unequal_row_counts", 1)
+				break
+			}
+		}
+	}
+	if stats.HashSlot != msgHashSlot || stats.MessageCount != rows || stats.MaxMessageID != maxID || stats.ChannelCount != uint64(len(cuts)) {
+		return map[string]any{"err": fmt.Sprintf("export statistics %+v, the cut holds hash slot %d, %d channels, %d rows, greatest message id %d", stats, msgHashSlot, len(cuts), rows, maxID),
+			"stats": m.statsModel(stats)}, nil
 	}
 	return map[string]any{"err": "", "stats": m.statsModel(stats)}, nil
 }
@@ -881,9 +994,10 @@ func (m *msgWorld) tgtAppend(d chanDef, k int64) (map[string]any, error) {
 }
 
 func (m *msgWorld) reexport() (map[string]any, error) {
-	data, _, err := m.tgt.export()
+	data, _, _, err := m.tgt.export(m.w.nextExport())
 	same := err == nil && bytes.Equal(data, m.exported)
-	if err != nil && errClass(err) != "rejected" && !strings.Contains(err.Error(), "no channel in the catalog") {
+	var d *exportDiffer
+	if err != nil && !errors.As(err, &d) && errClass(err) != "rejected" && !errors.Is(err, errNoChannel) {
 		return nil, err
 	}
 	return map[string]any{"same": same}, nil
